@@ -5,17 +5,16 @@
     excluding extended constant expressions.
 
    The property is FALSE of /repo today, in these input classes:
-     D09a-d, D09i-j (901-904, 909, 910)  parsing a valid module panics (name section before the code section or naming a
-                 function past the end, producers section with zero fields / unknown field / non-UTF-8 value, name maps
-                 with an unreadable entry);
      D10a (101)  exnref / nullexnref in a function type or local declaration comes back non-nullable; the output is then
                  invalid whenever the nullable type mattered: `(local exnref) local.get 0` -> "uninitialized local",
-                 a block of type (result i32 exnref) fed with ref.null exn -> "type mismatch: expected (ref exn)".
+                 a block of type (result i32 exnref) fed with ref.null exn -> "type mismatch: expected (ref exn)";
+     D09i / D09j (909, 910)  a valid module whose name section has an undecodable entry is rejected with Err.
+   (Repaired: D09a-d -- name section before the code section / naming a function past the end, producers section with
+   zero fields / unknown field / non-UTF-8 value: these valid modules are now parsed.)
 
    What is established:
-   * parsing: C03's theorems (Props/C03.v) -- the parse model panics only at the known sites; here the same model
-     predicts the parse outcome of every sampled valid module, and C01_parse_failures_known shows that a predicted
-     panic is always one of the listed classes.
+   * parsing: C03's theorems (Props/C03.v) -- the parse model never panics; here the same model predicts the parse
+     outcome of every sampled valid module (C01_parse_never_panics).
    * validity is *reduced to content*: C01_checker_sound (Coq): on a case where model and implementation agree, if the
      input is valid, the parse model predicts Ok and the decoded content of output and input are equal, then the
      output was observed valid; with C02_checker_sound this gives C01_valid_roundtrip: outside D09 / D10 an agreeing
@@ -46,16 +45,23 @@ Theorem C01_parse_failures_known : forall mm s k, parse_glue mm s = OPanic k -> 
 Proof. exact parse_glue_panics_known. Qed.
 Print Assumptions C01_parse_failures_known.
 
+Theorem C01_parse_never_panics : forall mm s k, parse_glue mm s <> OPanic k.
+Proof. exact parse_glue_never_panics. Qed.
+Print Assumptions C01_parse_never_panics.
+
 Theorem C01_valtype_faithful : forall t, in_profile t -> known_D10 t = false -> roundtrip_enc t = Some t.
 Proof. exact valtype_faithful. Qed.
 Print Assumptions C01_valtype_faithful.
 
+(* the former D09 refutations: these valid modules are now parsed *)
+Example C01_repaired_D09_name_before_code : parse_glue false w_name_before_code = OOk.
+Proof. exact name_before_code_parses. Qed.
+Example C01_repaired_D09_producers_empty : parse_glue false w_producers_empty = OOk.
+Proof. exact producers_empty_parses. Qed.
 (* refutations *)
-(* D09: valid modules on which the parse panics (abstractions of the witnesses of known_findings.json) *)
-Example C01_refuted_D09_name_before_code : parse_glue false w_name_before_code = OPanic 901.
-Proof. exact site_901_reached. Qed.
-Example C01_refuted_D09_producers_empty : parse_glue false w_producers_empty = OPanic 902.
-Proof. exact site_902_reached. Qed.
+(* D09i: a valid module whose type-name map has a name that is not UTF-8 is rejected *)
+Example C01_refuted_D09i_namemap : parse_glue false w_namemap = OErr.
+Proof. exact namemap_rejected. Qed.
 (* D10: (module (func (local exnref) (drop (local.get 0)))) -- the local comes back as (ref exn), which is not defaultable *)
 Example C01_refuted_D10 : roundtrip_enc (VRef true (HAbs false AExn)) = Some (VRef false (HAbs false AExn)).
 Proof. exact valtype_refuted_exnref. Qed.
